@@ -112,6 +112,7 @@ func c19Pure(name string) bool {
 
 func checkC19(r *Result) {
 	P := r.P
+	defer checkLostUpdates(r, "C19")
 	S := P.Scopes()
 	r.Explanation = "Authority and signer-frame rules decided on the resolved program. From proto/layer/*/tx.proto the signer field of each of the Msg rpcs is read. For every message signed by `authority`, the handler's comparison of that field with the keeper's authority must hold on every path to any effectful call (path-state analysis); UpdateTeam likewise against the stored team address; collections owned by governance are written only from authority handlers or genesis; in app.New each keeper's authority argument is the gov module address. For every other handler, at each debit sink reachable from it (the `from` account of SendCoinsFromAccountToModule, the delegator of Unbond, the key of Selectors/Reporters/SelectorTips writes) the account is traced backwards interprocedurally (context-sensitive over call sites) to its sources, which must all be the message's signer field or one of the exceptions the property names. RegisterSpec may write only a key that the existence test examined, with guard, write and read applying the same key normalisation."
 	r.NotDecided = "indirect effects over all reachable states (e.g. share-price changes); sinks outside the listed set"
